@@ -143,6 +143,21 @@ impl Property for C14 {
         }
         { let m = GossipMessage::new_delta_batch(ReplicaId::new(3), deltas.clone(), 5); match m.serialize() { Ok(b) => { let mut w = want.clone(); w.push("from:3".into()); images.push((3, b, w)) } Err(e) => { rep.violate("C14/encode-failed/gossip", e.to_string()); return rep; } } }
         // ---- round trip
+        // (a WAL file must read back the same whatever rotation size the reading process is configured with:
+        // an entry larger than the rotation size is legitimately written whole into the current file)
+        if let Some((_, img, w)) = images.iter().find(|(e, _, _)| *e == 0) {
+            let mut image = Image::new();
+            image.insert("wal-00000001.wal".to_string(), img.clone());
+            for max in [17usize, 64, 300] {
+                rep.evals += 1;
+                let got: Result<Vec<String>, String> = WalRotator::new(SimWalStore::from_image(&image), max).map_err(|e| e.to_string()).and_then(|r| r.recover_all_entries().map_err(|e| e.to_string())).and_then(|es| es.iter().map(|e| e.to_delta().map(|d| dsig(&d)).map_err(|e| e.to_string())).collect());
+                match got {
+                    Ok(g) if &g == w => { rep.probe("wal_read_with_small_rotation_size"); }
+                    Ok(g) => { rep.violate("C14/roundtrip-differs/wal-entries", format!("a WAL file of {} updates read by a rotator configured with max_file_size = {} returns {} of them", w.len(), max, g.len())); return rep; }
+                    Err(e) => { rep.violate("C14/roundtrip-fails/wal-entries", format!("a WAL file of {} updates read by a rotator configured with max_file_size = {}: {}", w.len(), max, e)); return rep; }
+                }
+            }
+        }
         for (enc, img, w) in &images {
             rep.evals += 1;
             match decode(*enc, img, false) {
